@@ -19,7 +19,7 @@ def main():
         subprocess.run(["git", "-C", "/repo", "worktree", "add", "--detach", wt, "HEAD"], check=True, capture_output=True)
     sh("git checkout -- . && git clean -fdq", wt)
     meta = json.load(open(f"{src}/meta.json"))
-    demo = meta.get("demo_cmd") or f"cd {wt} && /venv/bin/python {src}/demo_test.py"
+    demo = f"cd {wt} && /venv/bin/python {src}/demo_test.py"
     res = {}
     rc, out = sh(demo, wt); res["demo_without"] = rc
     rc, out = sh(f"git apply {src}/patch.diff", wt); res["apply"] = rc
